@@ -202,6 +202,9 @@ def _history(args):
                 try:
                     o.self_delete(); out["status"] = "deleted-while-referenced"; out["fails"] = [j]; return out
                 except PermissionError: pass
+                # a refused deletion changes nothing: the object keeps every link it held
+                f = check_links(b, namemir())
+                if f: out["status"] = "inconsistent-after-a-refused-deletion"; out["fails"] = f; out["ops"] = out["ops"] + [f"{j}.self_delete() refused"]; return out
     except Exception:
         out["status"] = "harness-error"; out["error"] = traceback.format_exc()[-700:]
     return out
